@@ -701,10 +701,33 @@ func ruleActorRecover(p *Program, r *Report) {
 		ord := map[string]int{}
 		ForEachInstr(fn, func(ins ssa.Instruction) {
 			c, ok := ins.(ssa.CallInstruction)
-			if !ok || !interpreterDispatch(c.Common()) {
+			if !ok {
 				return
 			}
-			key := fmt.Sprintf("eval@%s", FnName(fn))
+			kind := "eval"
+			if !interpreterDispatch(c.Common()) {
+				// a client callback: a call through a function-typed field (watcher.onupdate / onclose) runs code the
+				// engine does not own, on the engine goroutine
+				cb := false
+				if c.Common().StaticCallee() == nil && !c.Common().IsInvoke() {
+					if ld, isLd := c.Common().Value.(*ssa.UnOp); isLd {
+						if fa, isFA := ld.X.(*ssa.FieldAddr); isFA && strings.HasPrefix(TypeName(Deref(fa.X.Type())), "engine.") {
+							// only callbacks that are handed an evaluated value: rendering an arbitrary value is where client
+							// code can panic (an encoder meeting +Inf or a function); close notifications carry just an error
+							for _, a := range c.Common().Args {
+								if strings.HasSuffix(a.Type().String(), "rel.Value") {
+									cb = true
+								}
+							}
+						}
+					}
+				}
+				if !cb {
+					return
+				}
+				kind = "callback"
+			}
+			key := fmt.Sprintf("%s@%s", kind, FnName(fn))
 			ord[key]++
 			if ord[key] > 1 {
 				key = fmt.Sprintf("%s~%d", key, ord[key])
@@ -722,7 +745,7 @@ func ruleActorRecover(p *Program, r *Report) {
 			if covered {
 				r.OK(key, "under a deferred recover", ins.Pos())
 			} else {
-				r.ViolPath(key, fmt.Sprintf("%s evaluates a client-supplied expression on the engine goroutine with no deferred recover on the way from the actor loop: a panic during evaluation brings the whole server down", FnName(fn)), ins.Pos(), ai.reach[fn])
+				r.ViolPath(key, fmt.Sprintf("%s evaluates a client-supplied expression or calls a client callback on the engine goroutine with no deferred recover on the way from the actor loop: a panic there (an observer's encoder meeting a value it cannot render) brings the whole server down", FnName(fn)), ins.Pos(), ai.reach[fn])
 			}
 		})
 	}
@@ -1278,3 +1301,56 @@ func transformerInstallThenNotify(p *Program, r *Report, ai *actorInfo, upd *ssa
 	})
 	return true
 }
+
+// R17j: every request taken from an update stream is answered.  The gRPC front end reads requests in a loop; the
+// acknowledgement carries no id, so a client can match answers to requests only by counting.  On every path from a
+// successful Recv back to the next Recv the handler must have sent an acknowledgement; any other way out of the
+// iteration is a return (the stream ends with that error).  A `continue` after a failed engine.Update leaves a
+// request unanswered: the client waits forever or miscounts.
+func ruleStreamRequestsAnswered(p *Program, r *Report) {
+	r.Begin("R17j", "every streamed request is answered: in each module function that receives requests from a gRPC server stream in a loop (invoke Recv on a …Server stream), every path from the Recv back to the Recv passes through a Send on that stream — the only other ways out of an iteration are returns", 1)
+	defer r.End()
+	n := 0
+	for _, fn := range p.RepoFns {
+		var recv *ssa.Call
+		ForEachInstr(fn, func(ins ssa.Instruction) {
+			if c, ok := ins.(*ssa.Call); ok && c.Call.IsInvoke() && c.Call.Method.Name() == "Recv" && strings.HasSuffix(c.Call.Value.Type().String(), "Server") {
+				recv = c
+			}
+		})
+		if recv == nil || !Reaches(recv.Block(), recv.Block(), false) {
+			continue
+		}
+		n++
+		r.Fn(FnName(fn))
+		sends := map[*ssa.BasicBlock]bool{}
+		ForEachInstr(fn, func(ins ssa.Instruction) {
+			if c, ok := ins.(*ssa.Call); ok && c.Call.IsInvoke() && c.Call.Method.Name() == "Send" && c.Call.Value == recv.Call.Value {
+				sends[c.Block()] = true
+			}
+		})
+		// a cycle through the Recv block that avoids every Send block?
+		seen := map[*ssa.BasicBlock]bool{}
+		work := append([]*ssa.BasicBlock{}, recv.Block().Succs...)
+		unanswered := false
+		for len(work) > 0 {
+			b := work[len(work)-1]
+			work = work[:len(work)-1]
+			if seen[b] || sends[b] {
+				continue
+			}
+			seen[b] = true
+			if b == recv.Block() {
+				unanswered = true
+				break
+			}
+			work = append(work, b.Succs...)
+		}
+		r.Check(!unanswered, "answers@"+FnName(fn), "each iteration sends an acknowledgement or returns", fmt.Sprintf("%s can go from one Recv to the next without a Send on the stream: that request gets neither an acknowledgement nor a terminal error, so the client (which can only count acknowledgements) waits forever or attributes later acknowledgements to the wrong request", FnName(fn)), recv.Pos())
+	}
+	if n == 0 {
+		r.Undecided("sites", "no stream-receiving loop found (the gRPC Update handler is expected)", 0)
+	}
+}
+
+func init() { register("C17", Rule{"R17j", ruleStreamRequestsAnswered}) }
